@@ -14,7 +14,7 @@ import time
 from . import run as R
 
 VERIF = R.VERIF
-REPLAY_DIR = os.path.join(VERIF, 'replays')
+REPLAY_DIR = os.path.join(VERIF, 'replays') if R.REPO == '/repo' else os.path.join(R.WORK, 'replays')
 CRATE = os.path.join(VERIF, 'replay')
 TARGET = os.path.join(VERIF, '.cache', 'replay-target')
 
